@@ -40,6 +40,8 @@ import (
 	"encoding/pem"
 	"errors"
 	"fmt"
+	"github.com/sassoftware/relic/v8/signers"
+	"github.com/spf13/cobra"
 	"io"
 	"log"
 	"math/big"
@@ -225,9 +227,9 @@ func init() {
 
 type req struct {
 	kind, client, key, sigtype, digest, flag, body string
-	idx                                             int
-	filename                                        string
-	payload                                         []byte
+	idx                                            int
+	filename                                       string
+	payload                                        []byte
 }
 
 func (q *req) String() string {
@@ -397,7 +399,14 @@ type scenario struct {
 	clients   map[string]*http.Client
 }
 
+// lateHooks: what cmdline/shared.Main runs in every relic process (also `relic serve`) before the command starts:
+// signers.MergeFlags visits every registered flag set once, single-threaded.  (pflag sorts a set lazily on its first
+// VisitAll and caches the result in the set; without this step the first overlapping requests of a process that embeds
+// the server package alone would sort the shared sets concurrently - a race the real binary cannot exhibit.)
+var lateHooks sync.Once
+
 func setup(cache string, keepAlive bool) (sc *scenario, err error) {
+	lateHooks.Do(func() { signers.MergeFlags(&cobra.Command{Use: "sign"}) })
 	u := getUniverse()
 	dir, err := os.MkdirTemp("", "verif-c14-")
 	if err != nil {
@@ -836,6 +845,39 @@ func (sc *scenario) healthLoop(stop <-chan struct{}, wg *sync.WaitGroup) {
 	}
 }
 
+// runCold: the very first requests a fresh server process receives, all at once (no sequential warm-up pass): whatever
+// is initialised lazily on first use (sorted flag sets, caches, lazily built tables) is then initialised under
+// contention.  Used by the -race run of the thorough tier, one fresh process per op; answers are only counted.
+func runCold(cache string, reqs []*req) string {
+	sc, err := setup(cache, true)
+	if sc != nil {
+		defer sc.teardown()
+	}
+	if err != nil {
+		return "err setup " + strings.ReplaceAll(err.Error(), "\n", " ")
+	}
+	res := make([]result, len(reqs))
+	var wg sync.WaitGroup
+	gate := make(chan struct{})
+	for i := range reqs {
+		wg.Add(1)
+		go func(i int) {
+			defer wg.Done()
+			<-gate
+			res[i] = sc.do(reqs[i], reqs[i].filename)
+		}(i)
+	}
+	close(gate)
+	wg.Wait()
+	wrong := 0
+	for i, r := range res {
+		if _, bad := canonOf(reqs[i], r); bad != "" {
+			wrong++
+		}
+	}
+	return fmt.Sprintf("ok cold n=%d wrong=%d", len(reqs), wrong)
+}
+
 func runScenario(kind, cache string, delayUs int, reqs []*req) string {
 	sc, err := setup(cache, kind != "shut")
 	if sc != nil {
@@ -984,12 +1026,15 @@ func Impl() {
 			delay, _ = strconv.Atoi(rest[0])
 			rest = rest[1:]
 		}
-		if err != nil || len(rest) != n || (kind != "conc" && kind != "enum" && kind != "shut") {
+		if err != nil || len(rest) != n || (kind != "conc" && kind != "enum" && kind != "shut" && kind != "cold") {
 			return "bad-op"
 		}
 		reqs := make([]*req, n)
 		for i := range rest {
 			reqs[i] = parseReq(rest[i], i)
+		}
+		if kind == "cold" {
+			return runCold(cache, reqs)
 		}
 		return runScenario(kind, cache, delay, reqs)
 	})
